@@ -963,6 +963,8 @@ SolverOption *SolverOptionManager::FindOption(
                     [&name_str](const std::string& syn) {
                      return 0==strcasecmp(name_str.c_str(), syn.c_str()); } ) !=
         (*i)->inline_synonyms().end()) {
+      if ((*i)->is_wildcard() && wildcardvalues)
+        return 0;
       return *i;
     }
     /// Wildcards
